@@ -338,6 +338,42 @@ Proof.
   eapply inv_all_step; eauto.
 Qed.
 
+(* every completed execution's row is in the destination *)
+Lemma has_row_mono dest r e : has_row dest e = true -> has_row (r :: dest) e = true.
+Proof.
+  unfold has_row. destruct (negb (e_ok e)); cbn [orb]; [reflexivity|].
+  cbn [existsb]. intros ->. apply orb_true_r.
+Qed.
+
+Lemma rows_step lbs lbm s o s' out :
+  forallb (has_row (dest s)) (execs s) = true -> step lbs lbm s o = (s', out) ->
+  forallb (has_row (dest s')) (execs s') = true.
+Proof.
+  intros Hr H.
+  assert (Hmono : forall r, forallb (has_row (r :: dest s)) (execs s) = true).
+  { intros r. rewrite forallb_forall in *. intros e He. apply has_row_mono. auto. }
+  assert (Hnew : forall sched sns ens d, has_row (the_row sns ens :: d) (the_exec sched sns ens) = true).
+  { intros. unfold has_row. cbn [the_exec the_row e_ok e_s e_e negb orb existsb r_ws r_we].
+    rewrite !Z.eqb_refl. reflexivity. }
+  destruct (step_shape_of _ _ _ _ _ _ H) as
+      [-> _|act _ -> _|sched sns ens _ -> _|sns ens _ -> _|now fail _ _ _ -> _|now xs xe fail _ _ _ -> _].
+  - exact Hr.
+  - exact Hr.
+  - unfold add_failed. cbn [execs dest forallb]. rewrite Hr. reflexivity.
+  - unfold add_dest. cbn [execs dest]. apply Hmono.
+  - unfold committed. cbn [execs dest forallb]. rewrite Hnew, Hmono. reflexivity.
+  - unfold committed. cbn [execs dest forallb]. rewrite Hnew, Hmono. reflexivity.
+Qed.
+
+Lemma rows_run lbs lbm ops : forall s,
+  forallb (has_row (dest s)) (execs s) = true ->
+  forallb (has_row (dest (run lbs lbm s ops))) (execs (run lbs lbm s ops)) = true.
+Proof.
+  induction ops as [|o r IH]; intros s Hs; [exact Hs|].
+  cbn [run]. apply IH. destruct (step lbs lbm s o) as [s' out] eqn:E. cbn [fst].
+  eapply rows_step; eauto.
+Qed.
+
 (* no pointer <-> nothing completed yet *)
 Lemma ptr_of_none log : ptr_of log = None -> filter e_ok log = [].
 Proof.
